@@ -426,8 +426,11 @@ func (c *tunnelTimeMetrics) Describe(ch chan<- *prometheus.Desc) {
 }
 
 func (c *tunnelTimeMetrics) Collect(ch chan<- prometheus.Metric) {
-	tNow := now()
 	c.mu.Lock()
+	// Read the clock under the lock: a client registered between an earlier
+	// clock reading and the lock acquisition would have a start time after
+	// `tNow` and yield a negative tunnel time, which makes the counter panic.
+	tNow := now()
 	for ipKey, client := range c.activeClients {
 		c.reportTunnelTime(ipKey, client, tNow)
 	}
